@@ -652,3 +652,45 @@ contract(
     # a tree that is not a strict tree is refused by every reader, exactly as by the constructor
     raises={'RuntimeError': ('iff', "not ref_wf(tree)")},
 )
+
+
+# ---------------------------------------------------------------------------------------------
+# C04 / C10: the serialised taxonomy is a function of the tree, not of the iteration order of the sets
+# that a tree built from label columns holds as children lists (which follows PYTHONHASHSEED): sets are
+# written as sorted lists.
+# ---------------------------------------------------------------------------------------------
+def _to_str_from_labels(obs_records, column_hierarchy):
+    import copy
+    import json
+    import warnings
+    from cell_type_mapper.taxonomy.utils import get_taxonomy_tree
+    from cell_type_mapper.taxonomy.taxonomy_tree import TaxonomyTree
+    with warnings.catch_warnings():
+        warnings.simplefilter('ignore')
+        tree = TaxonomyTree(data=get_taxonomy_tree(copy.deepcopy(obs_records), list(column_hierarchy)))
+        return json.loads(tree.to_str())
+
+
+def _gen_valid_labels(rng, size):
+    from contracts.c_taxonomy_utils import _gen_label_table, ref_label_tree
+    for _ in range(100):
+        g = _gen_label_table(rng, size)
+        if ref_label_tree(g['obs_records'], g['column_hierarchy']):
+            return g
+    return dict(obs_records=[{'L0': 'a'}], column_hierarchy=['L0'])
+
+
+contract(
+    M + 'to_str#canonical',
+    properties=['C04', 'C10'], mode='bounded',
+    native=dict(call=_to_str_from_labels, gen=_gen_valid_labels, env=dict(sorted=sorted, list=list, set=set, str=str),
+                bound='random label tables (<= 4 levels, <= 12 cells) -> get_taxonomy_tree -> TaxonomyTree.to_str'),
+    params=dict(obs_records='Opaque', column_hierarchy='List[Name]'),
+    returns='Opaque',
+    ensures=[
+        "result['hierarchy'] == column_hierarchy",
+        # children built as sets are written in sorted order (a canonical text)
+        "all(list(result[column_hierarchy[k]][p]) == sorted(set(result[column_hierarchy[k]][p])) "
+        "for k in range(len(column_hierarchy) - 1) for p in result[column_hierarchy[k]])",
+    ],
+)
